@@ -205,6 +205,36 @@ fn c11_visit(lines: &[Line], term: Term, acc: &mut Acc) {
             }
         }
     }
+    // (1b) the same crash points in a buffer whose address is 4 but not 8 modulo 8 (the parser asks for 4-byte
+    //      alignment only: a Vec<u32>, a 4-aligned slot of an archive). Only the prefix clause is applied there: a
+    //      strict prefix is rejected (with whatever error) or answers like the full file.
+    if full.len() <= 4096 {
+        let mut skewed = vec![0u8; 4];
+        skewed.extend_from_slice(&full);
+        let abs = Aligned::new(&skewed);
+        for n in 0..full.len() {
+            acc.transitions += 1;
+            acc.observations += 1;
+            let r = guarded(|| {
+                let pre = &abs.as_slice()[4..4 + n];
+                match cur::ProguardCache::parse(pre) {
+                    Err(_) => None,
+                    Ok(c) => {
+                        let fullc = cur::ProguardCache::parse(ab_full.as_slice()).expect("full file parses");
+                        let mut sub = Acc::new();
+                        diff_pair(&uni, &fullc, &c, "prefix", &mut sub, size, &|q, e, g| json!({"query":q,"expected":e,"observed":g}));
+                        Some(sub.violations.values().next().map(|v| v.desc.clone()))
+                    }
+                }
+            });
+            match r {
+                Err(p) => acc.violation(format!("prefix:panic:{}", panic_site(&p)), size, || (format!("parsing the {}-byte prefix at an address = 4 (mod 8) panicked: {}", n, p), mkcase(json!({"prefix":n,"address_mod_8":4}), "Err".into(), p.clone()))),
+                Ok(None) => {}
+                Ok(Some(None)) => acc.count("strict prefixes accepted at an address = 4 (mod 8) (and answering like the full file)", 1),
+                Ok(Some(Some(d))) => acc.violation("prefix:accepted-and-answers-differ:address-4-mod-8", size, || (format!("the {}-byte prefix of a {}-byte file, in a buffer at an address = 4 (mod 8), is accepted but answers differently: {}", n, full.len(), d), mkcase(json!({"prefix":n,"address_mod_8":4}), "Err, or answers as the full file".into(), d.clone()))),
+            }
+        }
+    }
     // (2) every single-field edit of the 24-byte header
     let counts = [h0.num_classes, h0.num_members, h0.num_by_params, h0.string_bytes];
     let mut edits: Vec<(usize, u32)> = Vec::new();
@@ -300,7 +330,7 @@ pub fn run_c11(tier: Tier) -> i32 {
         prop: "C11",
         tier,
         level: "fault_enumeration",
-        rule: "base files = caches written from every curated mapping, every MS-B history (depth <= 3 quick / 4 thorough), MS-C and small MS-D files, the long-name files (127..1025-byte names) and the character-class family; two files with a 16 MiB / 32 MiB string section; faults = every strict prefix length 0..len-1 (crash points; for files above 100 kB the last 4096 prefixes, 8 bytes around every section boundary and every 65536th length) and every single-field edit of the header (5 magic values, 8 versions incl. values whose low or high half is 1, 6 values per count, every single-bit flip of all six fields) plus 4 two-edit precedence scripts; oracle = rejection with the error kind the documented layout implies (computed by the independent decoder), or acceptance with answers identical to the full file. evaluations = faulted buffers parsed; distinct = distinct (fault class, error kind) pairs".into(),
+        rule: "base files = caches written from every curated mapping, every MS-B history (depth <= 3 quick / 4 thorough), MS-C and small MS-D files, the long-name files (127..1025-byte names) and the character-class family; two files with a 16 MiB / 32 MiB string section; faults = every strict prefix length 0..len-1, in an 8-aligned buffer and (files <= 4 kB; prefix clause only) in a buffer at an address = 4 (mod 8) (crash points; for files above 100 kB the last 4096 prefixes, 8 bytes around every section boundary and every 65536th length) and every single-field edit of the header (5 magic values, 8 versions incl. values whose low or high half is 1, 6 values per count, every single-bit flip of all six fields) plus 4 two-edit precedence scripts; oracle = rejection with the error kind the documented layout implies (computed by the independent decoder), or acceptance with answers identical to the full file. evaluations = faulted buffers parsed; distinct = distinct (fault class, error kind) pairs".into(),
         bounds: json!({"base_files": nb, "prefixes": "all", "header_edits_per_file": "5 magic + 3 version + up to 24 count values + 4 precedence scripts"}),
         assumptions: vec!["prefixes shorter than the 24-byte header: any error kind is accepted (the statement names none)".into(), "buffers handed to the parser are 8-aligned (the parser pads relative to the memory address)".into()],
         trusted_base: vec!["rustc/std".into(), "layout arithmetic of pgmc/src/dec.rs".into()],
@@ -630,6 +660,33 @@ fn c12_eval(full: &[u8], devs: &[Dev], uni: &Universe, ab: &mut Aligned, acc: &m
     }
 }
 
+/// the same at another address residue: the (possibly edited) file sits `skew` bytes behind an 8-aligned address
+fn c12_eval_skew(full: &[u8], devs: &[Dev], skew: usize, uni: &Universe, acc: &mut Acc, size: usize, mkcase: &dyn Fn(&[Dev], String) -> Value) {
+    let mut plain = full.to_vec();
+    for d in devs {
+        d.apply(&mut plain);
+    }
+    let mut padded = vec![0u8; skew];
+    padded.extend_from_slice(&plain);
+    let ab = Aligned::new(&padded);
+    let buf = &ab.as_slice()[skew..];
+    acc.transitions += 1;
+    let range = (buf.as_ptr() as usize, buf.as_ptr() as usize + buf.len());
+    let mut obs = 0u64;
+    let mut outs: Vec<u64> = Vec::new();
+    let r = guarded(|| match cur::ProguardCache::parse(buf) {
+        Err(_) => None,
+        Ok(c) => c12_queries(&c, uni, range, &mut obs, &mut outs, false),
+    });
+    acc.observations += obs.max(1);
+    acc.count("buffers at an address = 1 / 2 / 4 (mod 8)", 1);
+    match r {
+        Ok(None) => {}
+        Ok(Some((sig, desc))) => acc.violation(format!("{}:address-{}-mod-8", sig, skew), size + devs.len(), || (format!("buffer at an address = {} (mod 8): {}", skew, desc), { let mut c = mkcase(devs, desc.clone()); c["address_mod_8"] = json!(skew); c })),
+        Err(p) => acc.violation(format!("panic:{}", panic_site(&p)), size + devs.len(), || (format!("buffer at an address = {} (mod 8): panic: {}", skew, p), { let mut c = mkcase(devs, p.clone()); c["address_mod_8"] = json!(skew); c })),
+    }
+}
+
 fn c12_visit(base: &C12Base, acc: &mut Acc, budget: &Budget) {
     let mapping = print_file(&base.lines, base.term);
     let size = mapping.len();
@@ -662,6 +719,18 @@ fn c12_visit(base: &C12Base, acc: &mut Acc, budget: &Budget) {
         c12_eval(&full, std::slice::from_ref(d), &uni, &mut ab, acc, size, &mkcase);
     }
     acc.count("1-deviation buffers", (fdevs.len() + odevs.len()) as u64);
+    // other address residues: the parser asks for 4-byte alignment only; 1 and 2 must be rejected or harmless
+    if full.len() <= 2000 {
+        for skew in [1usize, 2, 4] {
+            c12_eval_skew(&full, &[], skew, &uni, acc, size, &mkcase);
+        }
+        for d in fdevs.iter() {
+            if budget.exceeded() {
+                return;
+            }
+            c12_eval_skew(&full, std::slice::from_ref(d), 4, &uni, acc, size, &mkcase);
+        }
+    }
     if base.two {
         // 2 deviations: all pairs of field edits (different fields)
         let mut n = 0u64;
@@ -729,7 +798,10 @@ pub fn recheck_c12(case: &Value) -> Vec<String> {
     let mut acc = Acc::new();
     if let Ok(Ok(full)) = guarded(|| cur::write_cache(&mapping)) {
         let mut ab = Aligned::new(&full);
-        c12_eval(&full, &devs, &uni, &mut ab, &mut acc, mapping.len(), &|_, _| json!({}));
+        match case["address_mod_8"].as_u64() {
+            Some(skew) if skew > 0 => c12_eval_skew(&full, &devs, skew as usize, &uni, &mut acc, mapping.len(), &|_, _| json!({})),
+            _ => c12_eval(&full, &devs, &uni, &mut ab, &mut acc, mapping.len(), &|_, _| json!({})),
+        }
     }
     acc.violations.keys().cloned().collect()
 }
